@@ -2,10 +2,11 @@ import Paho.Driver.Pure
 import Paho.Driver.Session
 import Paho.Driver.Props
 import Paho.Driver.Codec
+import Paho.Driver.Decode
 open Paho.Driver
 
 def drivers : List (String × Drv) :=
-  [("trie", trieDrv), ("mid", midDrv), ("validate", validateDrv), ("session", sessionDrv), ("session-inv", sessionInvDrv), ("props", propsDrv), ("codec", codecDrv)]
+  [("trie", trieDrv), ("mid", midDrv), ("validate", validateDrv), ("session", sessionDrv), ("session-inv", sessionInvDrv), ("props", propsDrv), ("codec", codecDrv), ("decode", decodeDrv)]
 
 def main (args : List String) : IO UInt32 := do
   match args with
